@@ -2,6 +2,7 @@ import MythVerif.Model.PthreadSpec
 import MythVerif.Proofs.MutexStaticInit
 import MythVerif.Proofs.PthProg
 import MythVerif.Proofs.PthGate
+import MythVerif.Proofs.PthOnce
 /-!
 # C16 — pthread programs behave the same on MassiveThreads as on the system pthreads
 
@@ -18,9 +19,13 @@ Four layers (DESIGN §4 C16):
    lock-protected-commutative fragment; `MythVerif.PthGate`: the same fragment extended by monotone
    condition-variable gates (`post` / `await`): `C16_eval_determinate_gates` (any two complete
    executions agree, and equal the closed formula), `C16_gates_monotone`,
-   `C16_gates_stuck_is_deadlock` (no divergence: the only way not to terminate is a deadlock).
+   `C16_gates_stuck_is_deadlock` (no divergence: the only way not to terminate is a deadlock);
+   `MythVerif.PthOnce`: that fragment extended by one-time initialisation (`once k` with a fixed
+   routine of lock-protected counter updates per control): `C16_eval_determinate_once` (the
+   routine of every mentioned, not yet done control is counted exactly once, whatever the number
+   of callers and their order), `C16_once_runs_once`, `C16_once_stuck_is_deadlock`.
    For the other constructs of the description language
-   (bounded buffers, barrier phases, once, keys, detached threads, sleeps)
+   (bounded buffers, barrier phases, keys, detached threads, sleeps)
    determinacy is by construction of the generator; what a generated program prints under the
    system library, under both redirection mechanisms and under `Flat.eval` is compared by
    differential execution (check/props/c16.py) — the system library is the oracle there, not a
@@ -601,3 +606,285 @@ example (σ : Store) : (∀ y, ¬ Step (.await 0 1, σ, fun _ => 0) y) ∧ (∀ 
   | await _ _ _ _ hle => simp at hle
 
 end MythVerif.PthGate
+
+/-! ## extension of the determinate fragment: one-time initialisation (`pthread_once`)
+
+`MythVerif.PthOnce.OProg` = `GProg` + `once k` (`pthread_once(&control[k], routine[k])`): every
+control `k` has one fixed routine `init k`, a list of lock-protected counter updates.  `once k`
+on a control that is not done runs the whole routine in ONE atomic step and marks the control done
+(no caller returns before the routine has completed); on a done control it is a no-op.  The
+statement: **whenever the program terminates, the routine of every control it mentions (and that was
+not done initially) has been counted exactly once**, however many callers there are and in whatever
+order they run — so the result is the closed formula `oeval` and any two complete executions agree. -/
+
+namespace MythVerif.PthOnce
+open MythVerif.PthProg (Store Store.bump)
+open MythVerif.PthGate (Gates Gates.bump)
+
+/-- what `ocontrib` is: the sum, over the duplicate-free list `dedup (onces p)` of the controls `p`
+    mentions — a list with exactly the elements of `onces p`, each once — of the effect of the
+    routines of those that are not done; a control mentioned by many calls is counted once, a done
+    control is not counted, and a program without `once` has no contribution. -/
+theorem C16_once_contrib_spec (init : Nat → List (Nat × Int)) (p : OProg) (done : Nat → Bool) :
+    (dedup (onces p)).Nodup ∧ (∀ k, k ∈ dedup (onces p) ↔ k ∈ onces p) ∧
+    (∀ i, ocontrib init p done i = initSum init (fun k => !done k) (dedup (onces p)) i) ∧
+    (∀ f i, initSum init f [] i = 0) ∧
+    (∀ f k L i, initSum init f (k :: L) i = (if f k then ieff (init k) i else 0) + initSum init f L i) ∧
+    ((∀ k ∈ onces p, done k = true) → ∀ i, ocontrib init p done i = 0) ∧
+    (∀ l σ i, applyInit l σ i = σ i + ieff l i) :=
+  ⟨nodup_dedup _, mem_dedup _, fun _ => rfl, fun _ _ => rfl, fun _ _ _ _ => rfl,
+   fun h i => initSum_none _ _ (fun k hk => by simp [h k ((mem_dedup _ k).mp hk)]) i, applyInit_eq⟩
+
+/-- **determinate fragment with one-time initialisation**: for every fork-join program over
+    lock-protected commutative counter updates, monotone gates and once-controls (routines `init`),
+    from every initial counters `σ`, gates `γ` and once-controls `done₀`, every complete execution of
+    the abstract interface ends with the return value `oval p`, the gates `γ + oposts p`, the
+    controls `done₀ ∪ onces p` and the counters
+    `σ + odelta p + Σ_{k ∈ onces p, done₀ k = false} (updates of init k)` (`= oeval init p σ γ done₀`)
+    — the routine of a control is counted exactly once however many callers there are and in
+    whatever order they run; hence ANY two complete executions end with the same value, counters,
+    gates, once-controls (and run counters). -/
+theorem C16_eval_determinate_once (init : Nat → List (Nat × Int)) (p : OProg) (σ : Store) (γ : Gates)
+    (done₀ : Nat → Bool) (runs₀ : Nat → Nat) :
+    (∀ v s', Steps init (p, ⟨σ, γ, done₀, runs₀⟩) (.ret v, s') →
+      (v, s'.cnt, s'.gates, s'.done) = oeval init p σ γ done₀ ∧
+      v = oval p ∧
+      (∀ i, s'.cnt i = σ i + odelta p i + ocontrib init p done₀ i) ∧
+      (∀ g, s'.gates g = γ g + oposts p g) ∧
+      (∀ k, s'.done k = (done₀ k || decide (k ∈ onces p))) ∧
+      (∀ k, s'.runs k = runs₀ k + (if !done₀ k && decide (k ∈ onces p) then 1 else 0))) ∧
+    (∀ v v' s₁ s₂, Steps init (p, ⟨σ, γ, done₀, runs₀⟩) (.ret v, s₁) →
+      Steps init (p, ⟨σ, γ, done₀, runs₀⟩) (.ret v', s₂) →
+      v = v' ∧ s₁.cnt = s₂.cnt ∧ s₁.gates = s₂.gates ∧ s₁.done = s₂.done ∧ s₁.runs = s₂.runs) := by
+  have main : ∀ v s', Steps init (p, ⟨σ, γ, done₀, runs₀⟩) (.ret v, s') →
+      (v, s'.cnt, s'.gates, s'.done) = oeval init p σ γ done₀ ∧
+      v = oval p ∧
+      (∀ i, s'.cnt i = σ i + odelta p i + ocontrib init p done₀ i) ∧
+      (∀ g, s'.gates g = γ g + oposts p g) ∧
+      (∀ k, s'.done k = (done₀ k || decide (k ∈ onces p))) ∧
+      (∀ k, s'.runs k = runs₀ k + (if !done₀ k && decide (k ∈ onces p) then 1 else 0)) := by
+    intro v s' h
+    obtain ⟨c1, c2, _, c4, c5, _, c7⟩ := steps_char _ _ h
+    simp only [oval, oposts, onces] at c1 c2 c5
+    have hσ : ∀ i, s'.cnt i = σ i + odelta p i + ocontrib init p done₀ i := by
+      intro i
+      have := c4 (dedup (onces p)) (nodup_dedup _) (fun k hk => (mem_dedup _ k).mpr hk) i
+      simp only [inv, odelta, onces] at this
+      rw [initSum_none _ _ (by simp)] at this
+      rw [initSum_congr (fun k => decide (k ∈ onces p) && !done₀ k) (fun k => !done₀ k) _
+        (fun k hk => by simp [(mem_dedup _ k).mp hk])] at this
+      simp only [ocontrib]
+      omega
+    have hγ : ∀ g, s'.gates g = γ g + oposts p g := by intro g; have := c2 g; omega
+    have hd : ∀ k, s'.done k = (done₀ k || decide (k ∈ onces p)) := by
+      intro k; have := c5 k; simpa using this
+    have hr : ∀ k, s'.runs k = runs₀ k + (if !done₀ k && decide (k ∈ onces p) then 1 else 0) := by
+      intro k
+      have := c7 k
+      simp only [hd k] at this
+      rw [this]
+      cases done₀ k <;> simp
+    refine ⟨?_, c1, hσ, hγ, hd, hr⟩
+    simp only [oeval, Prod.mk.injEq]
+    exact ⟨c1, funext hσ, funext hγ, funext hd⟩
+  refine ⟨main, ?_⟩
+  intro v v' s₁ s₂ h1 h2
+  obtain ⟨_, a2, a3, a4, a5, a6⟩ := main v s₁ h1
+  obtain ⟨_, b2, b3, b4, b5, b6⟩ := main v' s₂ h2
+  exact ⟨a2.trans b2.symm, funext fun i => (a3 i).trans (b3 i).symm,
+    funext fun g => (a4 g).trans (b4 g).symm, funext fun k => (a5 k).trans (b5 k).symm,
+    funext fun k => (a6 k).trans (b6 k).symm⟩
+
+/-- **the routine runs at most once**: the ghost counter `runs k` is incremented by the atomic
+    initialisation step of control `k` and by nothing else.  Along every execution (complete or not)
+    from run counters 0: `runs k ≤ 1`; `runs k = 1` exactly when the control is done now and was
+    not done initially; a control that was done initially or that the program does not mention is
+    never run; `done` only grows and stays within `done₀ ∪ onces p`; and the routine's effect on
+    the counters is accounted exactly `runs k` times:
+    `counters + remaining adds = σ + odelta p + Σ_k runs k · init k`. -/
+theorem C16_once_runs_once (init : Nat → List (Nat × Int)) (p p' : OProg) (σ : Store) (γ : Gates)
+    (done₀ : Nat → Bool) (s' : St)
+    (h : Steps init (p, ⟨σ, γ, done₀, fun _ => 0⟩) (p', s')) :
+    (∀ k, s'.runs k ≤ 1) ∧
+    (∀ k, s'.runs k = 1 ↔ (s'.done k = true ∧ done₀ k = false)) ∧
+    (∀ k, done₀ k = true → s'.done k = true ∧ s'.runs k = 0) ∧
+    (∀ k, k ∉ onces p → s'.done k = done₀ k ∧ s'.runs k = 0) ∧
+    (∀ k, s'.done k = true → done₀ k = true ∨ k ∈ onces p) ∧
+    (∀ (s : St) (k : Nat), (s.fire init k).runs k = s.runs k + 1 ∧ (s.fire init k).done k = true ∧
+      ∀ j, j ≠ k → (s.fire init k).runs j = s.runs j) ∧
+    (∀ i, s'.cnt i + odelta p' i =
+      σ i + odelta p i + initSum init (fun k => decide (s'.runs k = 1)) (dedup (onces p)) i) := by
+  obtain ⟨_, _, _, c4, c5, c6, c7⟩ := steps_char _ _ h
+  simp only at c5 c6 c7
+  have hr : ∀ k, s'.runs k = if s'.done k && !done₀ k then 1 else 0 := by
+    intro k; have := c7 k; omega
+  have hnot : ∀ k, k ∉ onces p → s'.done k = done₀ k := by
+    intro k hk
+    have h5 := c5 k
+    have h6 := c6 k
+    cases hd : done₀ k
+    · cases hs : s'.done k
+      · rfl
+      · simp [hd, hs, hk] at h5
+    · exact h6 hd
+  refine ⟨?_, ?_, ?_, ?_, ?_, ?_, ?_⟩
+  · intro k; rw [hr k]; split <;> omega
+  · intro k; rw [hr k]; cases s'.done k <;> cases done₀ k <;> simp
+  · intro k hk; refine ⟨c6 k hk, ?_⟩; rw [hr k]; simp [hk]
+  · intro k hk; refine ⟨hnot k hk, ?_⟩; rw [hr k, hnot k hk]; cases done₀ k <;> simp
+  · intro k hk
+    have h5 := c5 k
+    cases hd : done₀ k
+    · right
+      simp only [hk, hd, Bool.true_or, Bool.false_or] at h5
+      simpa using h5.symm
+    · exact Or.inl rfl
+  · intro s k
+    refine ⟨by simp [St.fire], by simp [St.fire], ?_⟩
+    intro j hj; simp [St.fire, hj]
+  · intro i
+    have hn := nodup_dedup (onces p)
+    have := c4 (dedup (onces p)) hn (fun k hk => (mem_dedup _ k).mpr hk) i
+    simp only [inv] at this
+    -- split the initial sum into (still pending) + (already run)
+    have key : ∀ L : List Nat, (∀ k ∈ L, k ∈ onces p) →
+        initSum init (fun k => decide (k ∈ onces p) && !done₀ k) L i =
+        initSum init (fun k => decide (k ∈ onces p') && !s'.done k) L i +
+        initSum init (fun k => decide (s'.runs k = 1)) L i := by
+      intro L
+      induction L with
+      | nil => intro _; simp [initSum]
+      | cons x xs ih =>
+        intro hL
+        have hx : x ∈ onces p := hL x (by simp)
+        have ihx := ih (fun k hk => hL k (by simp [hk]))
+        simp only [initSum]
+        rw [ihx]
+        have hrx := hr x
+        have h5 := c5 x
+        have h6 := c6 x
+        rcases Bool.eq_false_or_eq_true (done₀ x) with hd | hd <;>
+          rcases Bool.eq_false_or_eq_true (s'.done x) with hs | hs <;> simp_all <;> omega
+    rw [key _ (fun k hk => (mem_dedup _ k).mp hk)] at this
+    omega
+
+/-- **the only way not to terminate is a deadlock** (as for the gate fragment; a `once` never
+    blocks): every step strictly decreases `osize`, there is no infinite execution, and a reachable
+    configuration that has no step is either complete — and then its result is `oeval` — or
+    `Blocked`: not finished and every remaining thread at an `await` below its threshold.
+    Conversely a `Blocked` configuration is stuck and not final. -/
+theorem C16_once_stuck_is_deadlock (init : Nat → List (Nat × Int)) (p : OProg) (σ : Store) (γ : Gates)
+    (done₀ : Nat → Bool) (runs₀ : Nat → Nat) :
+    (∀ x y, Step init x y → osize y.1 < osize x.1) ∧
+    (∀ p' s', Steps init (p, ⟨σ, γ, done₀, runs₀⟩) (p', s') → osize p' ≤ osize p) ∧
+    (¬ ∃ f : Nat → Cfg, f 0 = (p, ⟨σ, γ, done₀, runs₀⟩) ∧ ∀ n, Step init (f n) (f (n + 1))) ∧
+    (∀ p' s', Steps init (p, ⟨σ, γ, done₀, runs₀⟩) (p', s') → (∀ y, ¬ Step init (p', s') y) →
+      (∃ v, p' = .ret v ∧ (v, s'.cnt, s'.gates, s'.done) = oeval init p σ γ done₀) ∨
+      ((∀ v, p' ≠ .ret v) ∧ Blocked s'.gates p')) ∧
+    (∀ p' s', Blocked s'.gates p' → (∀ y, ¬ Step init (p', s') y) ∧ ∀ v, p' ≠ .ret v) ∧
+    (∀ k s, ∃ y, Step init (.once k, s) y) := by
+  refine ⟨step_size, ?_, ?_, ?_, ?_, ?_⟩
+  · intro p' s' h; exact steps_length _ _ h
+  · rintro ⟨f, _, hf⟩; exact no_infinite_run f hf
+  · intro p' s' h hstuck
+    rcases progress (init := init) p' s' with ⟨v, rfl⟩ | hb | ⟨y, hs⟩
+    · exact Or.inl ⟨v, rfl, ((C16_eval_determinate_once init p σ γ done₀ runs₀).1 v s' h).1⟩
+    · refine Or.inr ⟨?_, hb⟩
+      intro v hv; subst hv; exact blocked_not_ret _ v hb
+    · exact absurd hs (hstuck _)
+  · intro p' s' hb
+    refine ⟨fun y => blocked_no_step p' s' hb y, ?_⟩
+    intro v hv; subst hv; exact blocked_not_ret _ v hb
+  · intro k s
+    rcases progress (init := init) (.once k) s with ⟨v, hv⟩ | hb | hs
+    · cases hv
+    · cases hb
+    · exact hs
+
+/-! non-vacuity: two children and the parent all call `once 0`; the routine of control 0 adds 5 to
+    counter 0 and 2 to counter 1 -/
+
+/-- the routines of the examples -/
+def exInit : Nat → List (Nat × Int)
+  | 0 => [(0, 5), (1, 2)]
+  | _ => []
+
+/-- two children and the parent call `once 0`; the parent then adds 1 to counter 0 -/
+def exProg : OProg := .fork (.once 0) (.fork (.once 0) (.seq (.once 0) (.add 0 1)))
+
+/-- the initial state of the examples: everything zero, no control done -/
+def exS0 : St := ⟨fun _ => 0, fun _ => 0, fun _ => false, fun _ => 0⟩
+
+/-- interleaving A: the FIRST CHILD wins the race and runs the routine; the second child and the
+    parent find the control done -/
+theorem exRunA : ∃ s', Steps exInit (exProg, exS0) (.ret (0 + (0 + (0 + 0))), s') ∧
+    s'.cnt 0 = 6 ∧ s'.cnt 1 = 2 ∧ s'.done 0 = true ∧ s'.runs 0 = 1 := by
+  let s1 : St := exS0.fire exInit 0
+  let s2 : St := { s1 with cnt := s1.cnt.bump 0 1 }
+  have d0 : exS0.done 0 = false := rfl
+  have d1 : s1.done 0 = true := by simp [s1, St.fire]
+  have h : Steps exInit (exProg, exS0) (.ret (0 + (0 + (0 + 0))), s2) :=
+    Steps.cons _ _ _ (Step.fork _ _ _)
+    (Steps.cons _ _ _ (Step.parR _ _ _ _ _ (Step.fork _ _ _))
+    (Steps.cons _ _ _ (Step.parL _ _ _ _ _ (Step.onceRun 0 exS0 d0))
+    (Steps.cons _ _ _ (Step.parR _ _ _ _ _ (Step.parL _ _ _ _ _ (Step.onceSkip 0 s1 d1)))
+    (Steps.cons _ _ _ (Step.parR _ _ _ _ _ (Step.parR _ _ _ _ _ (Step.seqL _ _ _ _ _ (Step.onceSkip 0 s1 d1))))
+    (Steps.cons _ _ _ (Step.parR _ _ _ _ _ (Step.parR _ _ _ _ _ (Step.seqR _ _ _ _ _ (Step.add 0 1 s1))))
+    (Steps.cons _ _ _ (Step.parR _ _ _ _ _ (Step.parR _ _ _ _ _ (Step.seqDone 0 0 _)))
+    (Steps.cons _ _ _ (Step.parR _ _ _ _ _ (Step.join 0 (0 + 0) _))
+    (Steps.cons _ _ _ (Step.join 0 (0 + (0 + 0)) _) (Steps.refl _)))))))))
+  refine ⟨s2, h, ?_, ?_, ?_, ?_⟩ <;>
+    simp [s2, s1, St.fire, exS0, exInit, applyInit, Store.bump]
+
+/-- interleaving B: the PARENT wins the race and runs the routine, then adds; both children find
+    the control done (the first child last) -/
+theorem exRunB : ∃ s', Steps exInit (exProg, exS0) (.ret (0 + (0 + (0 + 0))), s') ∧
+    s'.cnt 0 = 6 ∧ s'.cnt 1 = 2 ∧ s'.done 0 = true ∧ s'.runs 0 = 1 := by
+  let s1 : St := exS0.fire exInit 0
+  let s2 : St := { s1 with cnt := s1.cnt.bump 0 1 }
+  have d0 : exS0.done 0 = false := rfl
+  have d2 : s2.done 0 = true := by simp [s2, s1, St.fire]
+  have h : Steps exInit (exProg, exS0) (.ret (0 + (0 + (0 + 0))), s2) :=
+    Steps.cons _ _ _ (Step.fork _ _ _)
+    (Steps.cons _ _ _ (Step.parR _ _ _ _ _ (Step.fork _ _ _))
+    (Steps.cons _ _ _ (Step.parR _ _ _ _ _ (Step.parR _ _ _ _ _ (Step.seqL _ _ _ _ _ (Step.onceRun 0 exS0 d0))))
+    (Steps.cons _ _ _ (Step.parR _ _ _ _ _ (Step.parR _ _ _ _ _ (Step.seqR _ _ _ _ _ (Step.add 0 1 s1))))
+    (Steps.cons _ _ _ (Step.parR _ _ _ _ _ (Step.parL _ _ _ _ _ (Step.onceSkip 0 s2 d2)))
+    (Steps.cons _ _ _ (Step.parR _ _ _ _ _ (Step.parR _ _ _ _ _ (Step.seqDone 0 0 _)))
+    (Steps.cons _ _ _ (Step.parR _ _ _ _ _ (Step.join 0 (0 + 0) _))
+    (Steps.cons _ _ _ (Step.parL _ _ _ _ _ (Step.onceSkip 0 s2 d2))
+    (Steps.cons _ _ _ (Step.join 0 (0 + (0 + 0)) _) (Steps.refl _)))))))))
+  refine ⟨s2, h, ?_, ?_, ?_, ?_⟩ <;>
+    simp [s2, s1, St.fire, exS0, exInit, applyInit, Store.bump]
+
+/-- the two interleavings (and every other complete execution) end in the same state, which is the
+    closed formula: the routine is counted once — counter 0 = 5 + 1, counter 1 = 2 — although three
+    threads called `once 0` -/
+example : ∀ v s', Steps exInit (exProg, exS0) (.ret v, s') →
+    v = 0 ∧ s'.cnt 0 = 6 ∧ s'.cnt 1 = 2 ∧ s'.cnt 2 = 0 ∧ s'.done 0 = true ∧ s'.done 1 = false ∧
+    s'.runs 0 = 1 ∧ s'.runs 1 = 0 := by
+  intro v s' h
+  obtain ⟨_, h2, h3, _, h5, h6⟩ := (C16_eval_determinate_once exInit exProg _ _ _ _).1 v s' h
+  refine ⟨h2, ?_, ?_, ?_, ?_, ?_, ?_, ?_⟩
+  · rw [h3]; decide
+  · rw [h3]; decide
+  · rw [h3]; decide
+  · rw [h5]; decide
+  · rw [h5]; decide
+  · rw [h6]; decide
+  · rw [h6]; decide
+
+example : ocontrib exInit exProg (fun _ => false) 0 = 5 ∧ dedup (onces exProg) = [0] ∧
+    onces exProg = [0, 0, 0] := by decide
+
+/-- if the control was already done initially nobody runs the routine -/
+example : ∀ v s', Steps exInit (exProg, ⟨fun _ => 0, fun _ => 0, fun _ => true, fun _ => 0⟩) (.ret v, s') →
+    s'.cnt 0 = 1 ∧ s'.cnt 1 = 0 ∧ s'.runs 0 = 0 := by
+  intro v s' h
+  obtain ⟨_, _, h3, _, _, h6⟩ := (C16_eval_determinate_once exInit exProg _ _ _ _).1 v s' h
+  refine ⟨?_, ?_, ?_⟩
+  · rw [h3]; decide
+  · rw [h3]; decide
+  · rw [h6]; decide
+
+end MythVerif.PthOnce
